@@ -281,6 +281,7 @@ type plan struct {
 	Requests  []string  `json:"stress_requests,omitempty"` // stress: methods the requester goroutine cycles through while the publisher runs
 	WaitEvery int       `json:"stress_wait_every,omitempty"`
 	Backlog   *backlog  `json:"backlog,omitempty"` // backlog stress: Pkts is a cycle, Requests the method cycle
+	Cross     *cross    `json:"cross,omitempty"`   // cross-connection rounds: Transport is player B's, Pkts a cycle
 }
 
 func (pl *plan) rcvBuf() int {
